@@ -1409,6 +1409,10 @@ class FileSet:
             )
         elif isinstance(bundle_size, str):
             files = list(file_iterator)
+            if not files:
+                # Nothing to bundle (pandas cannot group an empty series by
+                # a time frequency)
+                return
 
             # We want to split the files into hourly (or daily, etc.) bundles.
             # pandas provides a practical grouping function.
